@@ -220,7 +220,7 @@ Proof.
   - destruct (h_data f o s) as [[e h'] s'] eqn:Eh.
     destruct (h_data_auth _ _ _ _ _ Eh) as (Hn & Hb).
     destruct h'; inversion H; subst; apply K; auto.
-  - inversion H; subst. apply K0; reflexivity.
+  - destruct (negb (esmtp s)); inversion H; subst; apply K0; reflexivity.
   - (* smtp_auth *)
     destruct (authed s || negb (o_authperm o)) eqn:Eg.
     { inversion H; subst. apply K0; reflexivity. }
@@ -286,7 +286,7 @@ Proof.
   - destruct (h_data f o s) as [[e h'] s'] eqn:Eh.
     destruct (h_data_auth _ _ _ _ _ Eh) as (Hn & Hb).
     destruct h'; inversion H; subst; apply K; auto.
-  - inversion H; subst. apply K; reflexivity.
+  - destruct (negb (esmtp s)); inversion H; subst; apply K; reflexivity.
   - destruct (authed s || negb (o_authperm o)) eqn:Eg.
     { inversion H; subst. apply K; reflexivity. }
     apply orb_false_iff in Eg as [_ Ep]. apply negb_false_iff in Ep.
